@@ -1,16 +1,16 @@
 CONSTANTS
-  MaxTok = 2
+  MaxTok = 1
   MaxStr = 1
-  MaxRunes = 2
+  MaxRunes = 3
   MaxPeek = 1
-  RuneKinds = {"p"}
+  RuneKinds = {"p", "b"}
   DecMode = "buffered"
-  LineMode = "asread"
+  LineMode = "tracked"
   WithComments = FALSE
   CommentMode = "eofsafe"
-  Pres = {"ok"}
-  SpawnMode = "afterchecks"
+  Pres = {"ok", "nocmap"}
+  SpawnMode = "first"
 SPECIFICATION Spec
 INVARIANT TypeOK
-INVARIANT ResultOK
+INVARIANT SinkGood
 CHECK_DEADLOCK TRUE
